@@ -530,7 +530,7 @@ class Ctx:
             tb.append('harness/src/bin/p_nested_reg.rs: trap-flag single-stepping of register / unregister / unregister_signal + fork per boundary, raise(SIGUSR1) on the same thread inside the child; the oracle is the property text evaluated in the child')
         if 'instruction_close_sweep' in cov:
             tb.append('harness/src/bin/p_nested_close.rs: trap-flag single-stepping + fork per boundary, Handle::close() called inside the SIGTRAP handler of the child')
-        if 'instruction_delivery_sweep' in cov:
+        if 'instruction_delivery_sweep' in cov or 'instruction_drop_sweep' in cov:
             tb.append('harness/src/bin/p_nested_iter.rs: trap-flag single-stepping + fork per boundary, sigqueue of the real signal inside the child, the shared self-pipe '
                       'socket restored by the parent (FIONREAD / drain / refill); the oracle is the property text evaluated in the child')
         self.trusted_base = tb
